@@ -46,6 +46,9 @@ func init() {
 		"verifInPlaceAppends": func(fr *frame, a []value) value { return fr.i.inPlaceAppends },
 		"verifConcretize":    apiConcretize,
 		"verifIsNaN":         apiIsNaN,
+		"verifRaceDetect":    func(fr *frame, a []value) value { fr.i.race = newRaceDetector(); return nil },
+		"verifGo":            func(fr *frame, a []value) value { fr.i.spawn(fr, fr.callpos, a[0], nil); return nil },
+		"verifYield":         func(fr *frame, a []value) value { fr.i.ensureSched().yield(fr.i, "harness"); return nil },
 	} {
 		harnessAPI[k] = v
 	}
